@@ -12,7 +12,7 @@ use std::collections::{BTreeMap, BTreeSet};
 pub static SPEC: PropSpec = PropSpec {
     id: "C07",
     level: "exploration",
-    rule: "programs: a library of 18 generic functions / methods (a generic struct whose fields apply other generic types to its own parameter built and taken apart at generic-application arguments, identity, pairs, swaps, apply, callbacks whose result type occurs only in the callback's return type, containers Vec / Ref / array / Opt[T] / Box[T], bounded generics through trait bounds, generics calling generics at composed types, bounded recursion) instantiated in `main` at type tuples drawn from 14 concrete types (all integer widths used, bool, string, unit, tuples, arrays, Vec, Ref, structs, enums, generic instances, function types), plus randomly generated generic-heavy programs; each program is (1) executed and compared with refsem (generics by substitution), (2) monitored after mono: no duplicate function names, no type-parameter residue in Mono/Lift/ANF or in the Go text, and at least one Mono function per distinct (generic function, type tuple) used. distinct / non-trivial = distinct (generic item, type-argument tuple) pairs instantiated",
+    rule: "programs: a library of 20 generic functions / methods (functions whose type parameter occurs only inside a type application with concrete co-arguments, a generic struct whose fields apply other generic types to its own parameter built and taken apart at generic-application arguments, identity, pairs, swaps, apply, callbacks whose result type occurs only in the callback's return type, containers Vec / Ref / array / Opt[T] / Box[T], bounded generics through trait bounds, generics calling generics at composed types, bounded recursion) instantiated in `main` at type tuples drawn from 14 concrete types (all integer widths used, bool, string, unit, tuples, arrays, Vec, Ref, structs, enums, generic instances, function types), plus randomly generated generic-heavy programs; each program is (1) executed and compared with refsem (generics by substitution), (2) monitored after mono: no duplicate function names, no type-parameter residue in Mono/Lift/ANF or in the Go text, and at least one Mono function per distinct (generic function, type tuple) used. distinct / non-trivial = distinct (generic item, type-argument tuple) pairs instantiated",
     eval_counter: "instantiations",
     assumptions: &["relative to refsem (generics by substitution) and gomini; instance counting is a lower bound (statically reachable instances may exceed dynamically used ones)"],
     crash_is_violation: false,
@@ -78,6 +78,7 @@ fn library() -> Lib {
     let enums = vec![
         EnumDecl { name: "Col".into(), tparams: vec![], variants: vec![("Red".into(), vec![]), ("Rgb".into(), vec![I32, I32])], derives: vec![] },
         EnumDecl { name: "Opt".into(), tparams: vec!["T".into()], variants: vec![("Som".into(), vec![tp("T")]), ("Non".into(), vec![])], derives: vec![] },
+        EnumDecl { name: "Res".into(), tparams: vec!["T".into(), "E".into()], variants: vec![("Okv".into(), vec![tp("T")]), ("Errv".into(), vec![tp("E")])], derives: vec![] },
     ];
     let mut items: Vec<Item> = Vec::new();
     for st in &structs {
@@ -253,6 +254,41 @@ fn library() -> Lib {
             ),
         ),
     )));
+    // the type parameter occurs only inside a type application that also has concrete arguments
+    let res_ts = Ty::Enum("Res".into(), vec![tp("T"), Ty::Str]);
+    items.push(Item::Fn(fnd(
+        "isokg",
+        &[("T", &[])],
+        vec![("r", res_ts.clone())],
+        Ty::Bool,
+        blk(
+            vec![],
+            Expr::Match(
+                Box::new(var("r")),
+                vec![
+                    (Pat::Constr { enum_name: "Res".into(), variant: "Okv".into(), args: vec![Pat::Wild], qualified: true }, Expr::Bool(true)),
+                    (Pat::Constr { enum_name: "Res".into(), variant: "Errv".into(), args: vec![Pat::Wild], qualified: true }, Expr::Bool(false)),
+                ],
+            ),
+        ),
+    )));
+    let res_it = Ty::Enum("Res".into(), vec![I32, tp("T")]);
+    items.push(Item::Fn(fnd(
+        "iserrg",
+        &[("T", &[])],
+        vec![("r", res_it.clone())],
+        I32,
+        blk(
+            vec![],
+            Expr::Match(
+                Box::new(var("r")),
+                vec![
+                    (Pat::Constr { enum_name: "Res".into(), variant: "Okv".into(), args: vec![Pat::Var("k".into())], qualified: true }, var("k")),
+                    (Pat::Constr { enum_name: "Res".into(), variant: "Errv".into(), args: vec![Pat::Wild], qualified: true }, i(0 - 1)),
+                ],
+            ),
+        ),
+    )));
     // monomorphic unary functions used as callbacks
     items.push(Item::Fn(fnd("i_to_s", &[], vec![("x", I32)], Ty::Str, blk(vec![], bin(BinOp::Add, s("#"), bi("int32_to_string", vec![var("x")]))))));
     items.push(Item::Fn(fnd("i_to_b", &[], vec![("x", I32)], Ty::Bool, blk(vec![], bin(BinOp::Gt, var("x"), i(2))))));
@@ -320,7 +356,7 @@ fn gen_calls(g: &mut Gen, n: usize) -> Vec<Call> {
         let t = g.rng.pick_ref(&pool).clone();
         let u = g.rng.pick_ref(&pool).clone();
         let val = |g: &mut Gen, ty: &Ty| g.gen_expr(ty, 1, &[]);
-        let which = g.rng.below(21);
+        let which = g.rng.below(25);
         let c = match which {
             0 => Call { name: "idg", targs: vec![("T".into(), t.clone())], args: vec![val(g, &t)], ret: t.clone() },
             1 => Call { name: "pairg", targs: vec![("T".into(), t.clone()), ("U".into(), u.clone())], args: vec![val(g, &t), val(g, &u)], ret: Ty::Tuple(vec![t.clone(), u.clone()]) },
@@ -356,6 +392,14 @@ fn gen_calls(g: &mut Gen, n: usize) -> Vec<Call> {
                 let a = g.rng.pick_ref(&showable).clone();
                 Call { name: "weighg", targs: vec![("T".into(), a.clone())], args: vec![val(g, &a), i(g.rng.below(9) as i128)], ret: I32 }
             }
+            21 | 22 => {
+                let rt = Ty::Enum("Res".into(), vec![t.clone(), Ty::Str]);
+                Call { name: "isokg", targs: vec![("T".into(), t.clone())], args: vec![val(g, &rt)], ret: Ty::Bool }
+            }
+            23 | 24 => {
+                let rt = Ty::Enum("Res".into(), vec![I32, t.clone()]);
+                Call { name: "iserrg", targs: vec![("T".into(), t.clone())], args: vec![val(g, &rt)], ret: I32 }
+            }
             19 | 20 => Call { name: "unwrg", targs: vec![("T".into(), t.clone())], args: vec![Expr::Call { name: "mkwrg".into(), targs: vec![("T".into(), t.clone())], args: vec![val(g, &t)] }], ret: t.clone() },
             _ => {
                 let a = g.rng.pick_ref(&showable).clone();
@@ -368,7 +412,7 @@ fn gen_calls(g: &mut Gen, n: usize) -> Vec<Call> {
     out
 }
 
-fn build(rng: &mut Rng, ncalls: usize) -> (Program, BTreeMap<&'static str, BTreeSet<String>>) {
+pub fn build(rng: &mut Rng, ncalls: usize) -> (Program, BTreeMap<&'static str, BTreeSet<String>>) {
     let lib = library();
     let mut f = Features::base();
     f.ticks = false;
